@@ -3,7 +3,6 @@ package main
 // C16: invalid sign requests never produce an envelope.
 
 import (
-	"fmt"
 	"sort"
 	"strings"
 )
@@ -82,12 +81,7 @@ func checkC16(c *Check) {
 		if pg == nil {
 			continue
 		}
-		req := ""
-		for i, v := range pg.G.Params {
-			if strings.HasSuffix(c.P.typeStr(v.Typ), "signature.SignRequest") {
-				req = fmt.Sprintf("p%d", i)
-			}
-		}
+		req := paramOfType(pg, "signature.SignRequest")
 		X := req + ".ExtendedSignedAttributes"
 		el := "re(" + X + ")"
 		ok := returnsWhere(pg, func(s *PState) bool { return retNilErr(s, -1) })
